@@ -11,3 +11,10 @@ char *bad_BND3_call(char *s) { if (s[0] == '/') { h_skip(&s); } return s; }
 char *good_call(char *s) { if ((s[0] == '/') && (s[1] == '*')) { h_skip(&s); } return s; }
 size_t bad_BND3_index(const unsigned char *p) { size_t i = 0; while (p[i] != '/') { i++; } return i; }
 size_t good_index(const unsigned char *p) { size_t i = 0; while ((p[i] >= '0') && (p[i] <= '9')) { i++; } return i; }
+/* cursor handed back to the caller / local copies of the caller's cursor */
+static void bad_BND3_handback(char **input) { char *c = *input; while (*c != '\0') { c++; } *input = c + 1; }
+static void good_handback(char **input) { char *c = *input; while (*c != '\0') { if (*c++ == '\n') { break; } } *input = c; }
+static void h_place(char **input) { char *c = *input + 2; while (*c != '\0') { c++; } *input = c; }
+char *bad_BND3_place_call(char *s) { if (s[0] == '/') { h_place(&s); } return s; }
+char *good_place_call(char *s) { if ((s[0] == '/') && (s[1] == '/')) { h_place(&s); } return s; }
+char *use_handback(char *s) { bad_BND3_handback(&s); good_handback(&s); return s; }
